@@ -90,6 +90,19 @@ Theorem C19_interleaving : forall batch i s0 from sched,
    rstep explorer_reader_locked i c <> None \/ wstep explorer_writer_index_first batch c <> None).
 Proof. exact (interleaving_locked explorer_writer_index_first). Qed.
 
+(* (4') any number of concurrent lookups and appends.  With every access to the store inside a critical section of gs.lock
+   (explorer_reader_locked = true, checked here), an execution of any number of GetGuardianSet / updateGuardianSets calls is a
+   sequence of critical sections; for EVERY such sequence the store stays aligned, only grows, and every lookup that returned a set
+   returned the set with the index it asked for — which is still the element at that position at the end. *)
+Theorem C19_any_number_of_lookups_and_appends : explorer_reader_locked = true -> forall ops s, aligned s -> all_ok s ops ->
+  let '(s', rs) := srun s ops in
+  aligned s' /\ cur s <= cur s' /\ (exists suf, lists s' = lists s ++ suf) /\
+  forall i r, In (i, r) rs -> match r with RSet g => g_index g = i /\ nth_set s' i = Some g | RMiss => True | RPanic => False end.
+Proof. exact (fun _ => any_sequence). Qed.
+
+Theorem C19_readers_are_locked : explorer_reader_locked = true.
+Proof. reflexivity. Qed.
+
 (* what the lock is for: the reader of the original code (no lock), index written before the append — writer stores the index,
    reader compares and indexes the old list: out of range *)
 Theorem C19_unlocked_reader_refuted :
@@ -131,3 +144,5 @@ Print Assumptions C19_failed_handoff_not_marked.
 Print Assumptions C19_dedup_marks_after_success.
 Print Assumptions C19_interleaving.
 Print Assumptions C19_unlocked_reader_refuted.
+Print Assumptions C19_any_number_of_lookups_and_appends.
+Print Assumptions C19_readers_are_locked.
